@@ -1,0 +1,73 @@
+//go:build verif
+// +build verif
+
+package p2p
+
+import (
+	"context"
+	"net"
+
+	"github.com/DOSNetwork/core/suites"
+	"github.com/dedis/kyber"
+	"github.com/golang/protobuf/proto"
+	"github.com/golang/protobuf/ptypes"
+)
+
+// Verification hooks for the panic-freedom property (build tag verif): thin
+// exports of unexported entry points, no logic of their own beyond building
+// the receiver the real function needs.
+
+// VerifPDecodeBytes is decodeBytes; verify == nil is the handshake path.
+func VerifPDecodeBytes(b []byte, verify func(msg, sig []byte) error) (*Package, ptypes.DynamicAny, error) {
+	if verify == nil {
+		return decodeBytes(b, nil)
+	}
+	return decodeBytes(b, verify)
+}
+
+// VerifPEncode is encodeProto.
+func VerifPEncode(msg proto.Message, sender []byte, sign func(msg []byte) ([]byte, error), nonce uint64, reply bool) ([]byte, error) {
+	if sign == nil {
+		return encodeProto(msg, sender, nil, nonce, reply)
+	}
+	return encodeProto(msg, sender, sign, nonce, reply)
+}
+
+func verifPClient(localID []byte, conn net.Conn) *client {
+	c := &client{localID: localID, conn: conn, errc: make(chan error)}
+	c.ctx, c.cancel = context.WithCancel(context.Background())
+	c.peerSend = make(chan p2pRequest, 21)
+	c.peerFeed = make(chan P2PMessage, 64)
+	c.suite = suites.MustFind("bn256")
+	c.localSecKey = c.suite.Scalar().Pick(c.suite.RandomStream())
+	c.localPubKey = c.suite.Point().Mul(c.localSecKey, nil)
+	return c
+}
+
+// VerifPReceiveID runs client.receiveID on a client built like newClient does
+// (minus the *net.TCPConn keep-alive calls) around the given connection.
+// done reports whether the session key was derived.
+func VerifPReceiveID(ctx context.Context, localID []byte, conn net.Conn) (errc chan error, keyed func() bool) {
+	c := verifPClient(localID, conn)
+	return c.receiveID(ctx), func() bool { return len(c.dhKey) == 32 && len(c.dhNonce) == 12 }
+}
+
+// VerifPDecodePipe runs client.decodePipe for a client whose peer key is remotePub.
+func VerifPDecodePipe(remotePub kyber.Point, in chan []byte) (reply, recv chan P2PMessage, errc chan error, cancel func()) {
+	c := verifPClient([]byte("local"), nil)
+	c.remotePubKey = remotePub
+	reply, recv = c.decodePipe(in)
+	return reply, recv, c.errc, c.cancel
+}
+
+// VerifPMessageDispatch runs server.messageDispatch of a network created by CreateP2PNetwork.
+func VerifPMessageDispatch(p P2PInterface) { p.(*server).messageDispatch() }
+
+// VerifPFeed hands messageDispatch a message the way a client's reportMsg does.
+func VerifPFeed(p P2PInterface, m P2PMessage) {
+	n := p.(*server)
+	select {
+	case <-n.ctx.Done():
+	case n.peersFeed <- m:
+	}
+}
